@@ -13,6 +13,7 @@
 package c34
 
 import (
+	"os"
 	"strings"
 	"testing"
 
@@ -21,7 +22,22 @@ import (
 	"verif/harness/props/c34/oracle"
 )
 
-func TestMain(m *testing.M) { core.Main(m, "C34") }
+// The block parser prints a deprecation warning on os.Stderr for every `?`;
+// keep the shard logs small (`go test -fuzz` prints its progress on os.Stderr
+// of the coordinating process, which is left alone).
+func TestMain(m *testing.M) {
+	fuzz, worker := false, false
+	for _, a := range os.Args[1:] {
+		fuzz = fuzz || strings.HasPrefix(a, "-test.fuzz=")
+		worker = worker || strings.HasPrefix(a, "-test.fuzzworker")
+	}
+	if !fuzz || worker {
+		if f, err := os.OpenFile(os.DevNull, os.O_WRONLY, 0); err == nil {
+			os.Stderr = f
+		}
+	}
+	core.Main(m, "C34")
+}
 
 type Case struct {
 	Line string `json:"line"`
@@ -74,7 +90,8 @@ func genWord(t *rapid.T) frag {
 		return frag{w + ":", false}
 	case 8:
 		w := rapid.SampledFrom(unsafeWords).Draw(t, "unsafe")
-		return frag{rapid.SampledFrom([]string{w + ":", "'" + w + "'", "\"" + w + "\"", " " + w, "\t" + w, w + "\t"}).Draw(t, "form"), true}
+		return frag{rapid.SampledFrom([]string{w + ":", "'" + w + "'", "\"" + w + "\"", " " + w, "\t" + w, w + "\t",
+			":out " + w, ": str " + w, "&" + w, "=" + w, "& " + w, "(x && " + w + " now)", "(x|" + w + ")", "(a; " + w + " )"}).Draw(t, "form"), true}
 	default:
 		return frag{rapid.SampledFrom([]string{">", ">>", "<mypipe>", "(", "[", "[[", "=", "!", "![", "exec:", "$cmd", "${out reboot}", "./x", "/bin/sh", "~/x", "-", "1"}).Draw(t, "odd"), true}
 	}
@@ -193,6 +210,8 @@ func classify(c Case) core.Class {
 		switch {
 		case w.Panic != nil:
 			verdict = "would-run,parser-panic"
+		case w.Hung:
+			verdict = "would-run,parser-hangs"
 		case w.ParseErr != nil:
 			verdict = "would-run,syntax-error"
 		case len(w.Findings) > 0:
